@@ -130,7 +130,7 @@ def run(ctx):
             raise AnalysisError(f"{fi.qualname}: no return paths")
         bad = False
         for val, node, path in res:
-            if val[0] == "BAD":
+            if val[0] in ("BAD", "PERM"):
                 bad = True
                 chk.violation(
                     "R07.a", fi, val[2],
@@ -217,7 +217,7 @@ def run(ctx):
             and isinstance(e.node, ast.For)
             and any(isinstance(x, ast.Name) and x.id == flist_name for x in ast.walk(e.node.iter))
         )
-        if val[0] == "BAD":
+        if val[0] in ("BAD", "PERM"):
             bad = True
             chk.violation("R07.b", inner, val[2], f"composite result is not a sub-list: {val[1]}", loc=inner.loc(val[2]))
         elif not is_sub(val):
@@ -269,7 +269,7 @@ def run(ctx):
                     has_filter = not e.data["taken"]
                 else:
                     has_filter = e.data["taken"]
-        if val[0] == "BAD":
+        if val[0] in ("BAD", "PERM"):
             bad = True
             chk.violation("R07.d", avail, val[2], f"available_operations: {val[1]}", loc=avail.loc(val[2]))
             continue
